@@ -414,7 +414,8 @@ def D07(p):
                     def ap(q, i=i, k=k):
                         q.lines[i].lex[k + 1] = Lx("n", "id")
                         return i
-                    yield "array", ap
+                    first = min(j for j, y in enumerate(ln.lex) if y.t == "[")
+                    yield "array" + (":after-another-identifier" if any(y.k == "id" for y in ln.lex[first:k]) else ""), ap
                     break
 
 
